@@ -99,7 +99,14 @@ def cat(op, inputs, dim=0):
 @register_qbytestensor_op([torch.ops.aten.lt])
 def lt(op, input, other):
     # Only quantized tensors with identical scales can be compared
-    if isinstance(input, QBytesTensor) and isinstance(other, QBytesTensor) and torch.equal(input._scale, other._scale):
+    if (
+        isinstance(input, QBytesTensor)
+        and isinstance(other, QBytesTensor)
+        and torch.equal(input._scale, other._scale)
+        and not input.qtype.is_floating_point
+        and not other.qtype.is_floating_point
+    ):
+        # Note: lt is not supported for float8
         return op(input._data, other._data)
     return qfallback(op, input, other)
 
